@@ -73,6 +73,47 @@ def set_clusters(ds, nclusters, key=None):
     return ds
 
 
+WALK_SPEED = 5 / 3.6            # m/s: the speed the server multiplies a walking maximum with to get the radius of its straight-line pre-filter
+M_PER_UDEG_LON = 0.0788469      # metres per micro-degree of longitude at latitude 45 (geofilter.cpp's series: 78 846.9 m / degree)
+M_PER_UDEG_LAT = 0.1111319      # metres per micro-degree of latitude at latitude 45 (111 131.9 m / degree)
+
+
+def bird_distance_m(ds, n, point_off=0, point_lat=ORIGIN_LAT):
+    """straight-line distance (m) between stop n (latitude 45.0) and a request point, as the server's pre-filter measures it"""
+    dx = (10 * n + lon_off(ds, n) - point_off) * M_PER_UDEG_LON
+    dy = (point_lat - 45.0) * 1e6 * M_PER_UDEG_LAT
+    return (dx * dx + dy * dy) ** 0.5
+
+
+def radius_candidates(ds, max_time, point_off=0, point_lat=ORIGIN_LAT, margin=0.04):
+    """(stops inside the pre-filter radius of a walking maximum, stops too close to the radius to call): the server asks the
+    router about the first ones only.  Stops within `margin` of the radius are reported separately -- a layout that has
+    any is not used (float rounding in the server decides those)."""
+    if max_time >= 2000000:
+        return sorted(ds.nodes), []
+    r = max_time * WALK_SPEED
+    inside, unclear = [], []
+    for n in sorted(ds.nodes):
+        d = bird_distance_m(ds, n, point_off, point_lat)
+        if abs(d - r) <= margin * r:
+            unclear.append(n)
+        elif d < r:
+            inside.append(n)
+    return inside, unclear
+
+
+def set_near_radius(ds, max_time=60, inner=0.84, outer=1.10):
+    """Place the stops of ds just INSIDE (even ids: `inner` x radius east of the points) and just OUTSIDE (odd ids: `outer` x
+    radius) the pre-filter radius of the walking maximum `max_time`: a radius computed from another speed, or with swapped or
+    dropped factors, asks the router about other stops than the server should."""
+    r = max_time * WALK_SPEED
+    ds.lon_off = {}
+    for n in ds.nodes:
+        target = (inner if n % 2 == 0 else outer) * r
+        ds.lon_off[n] = int(round(target / M_PER_UDEG_LON)) - 10 * n + n      # + n: one micro-degree (8 cm) apart, so that coordinates stay distinct
+    return ds
+
+
 def candidates(ds, point_off=0):
     """the stops the server's straight-line pre-filter lets through for a point with longitude offset `point_off`, in the
     order they are asked (uuid = id order): the stops of the point's cluster (all stops without clusters).  Holds for
